@@ -2,6 +2,8 @@ import SynKitModel.Match
 import Mathlib.Data.List.Basic
 import Mathlib.Data.List.Nodup
 import Mathlib.Data.List.Pairwise
+import Mathlib.Data.List.Perm.Subperm
+import Mathlib.Logic.Function.Basic
 /-! Soundness and completeness of the back-tracking enumerator (shared engine). -/
 namespace SynKit.Match
 
@@ -406,5 +408,500 @@ theorem isoDecide_iff (sel : Sel) (H P : LGraph) (hP : P.WF) :
     exact ⟨m, (mem_allInduced sel H P hP m).1 hm, hlen⟩
   · rintro ⟨m, hm, hlen⟩
     exact ⟨hlen, List.ne_nil_of_mem ((mem_allInduced sel H P hP m).2 hm)⟩
+
+
+
+/-! ## Isomorphism is an equivalence; relabelling invariance -/
+
+theorem edgeOk_comm (sel : Sel) (a b : Attrs) : edgeOk sel a b = edgeOk sel b a := by
+  unfold edgeOk
+  congr 1
+  funext k
+  exact decide_eq_decide.2 eq_comm
+
+/-- The inverse assignment of `m`, listed in `H`'s node order. -/
+def invMapping (H : LGraph) (m : Mapping) : Mapping :=
+  H.ids.map fun h => (h, ((m.find? (·.2 = h)).map (·.1)).getD 0)
+
+/-- A mapping between graphs with equally many nodes that is injective into `H` is onto `H`. -/
+theorem iso_surj (sel : Sel) (H P : LGraph) (m : Mapping) (hm : IsIso sel H P m) :
+    ∀ h ∈ H.ids, ∃ p, (p, h) ∈ m := by
+  obtain ⟨⟨⟨hfst, hnd, hnode, -⟩, -⟩, hlen⟩ := hm
+  have hsub : m.map (·.2) ⊆ H.ids := by
+    intro h hh
+    obtain ⟨x, hx, rfl⟩ := List.mem_map.1 hh
+    exact (hnode x hx).1
+  have hsp := List.subperm_of_subset hnd hsub
+  have hl : H.ids.length ≤ (m.map (·.2)).length := by
+    have : (m.map (·.1)).length = P.ids.length := by
+      have e : m.map (·.1) = P.ids := hfst
+      rw [e]
+    simp only [List.length_map, LGraph.ids] at this ⊢
+    omega
+  have hp := hsp.perm_of_length_le hl
+  intro h hh
+  have := hp.mem_iff.2 hh
+  obtain ⟨x, hx, rfl⟩ := List.mem_map.1 this
+  exact ⟨x.1, hx⟩
+
+theorem invMapping_spec (H : LGraph) (m : Mapping) (hs : ∀ h ∈ H.ids, ∃ p, (p, h) ∈ m) :
+    ∀ x ∈ invMapping H m, (x.2, x.1) ∈ m := by
+  intro x hx
+  unfold invMapping at hx
+  obtain ⟨h, hh, rfl⟩ := List.mem_map.1 hx
+  obtain ⟨p, hp⟩ := hs h hh
+  simp only
+  cases hf : m.find? (·.2 = h) with
+  | none =>
+    rw [List.find?_eq_none] at hf
+    exact absurd (by simp) (hf (p, h) hp)
+  | some y =>
+    have h1 := List.mem_of_find?_eq_some hf
+    have h2 := List.find?_some hf
+    simp only [decide_eq_true_eq] at h2
+    simp only [Option.map_some, Option.getD_some]
+    rw [← h2]; exact h1
+
+theorem invMapping_fst (H : LGraph) (m : Mapping) : (invMapping H m).map (·.1) = H.ids := by
+  unfold invMapping
+  rw [List.map_map]
+  exact List.map_id' _
+
+/-- **Isomorphism is symmetric** as soon as the node closure is (e.g. hydrogen rule off, or equal
+hydrogen counts): the inverse assignment is an isomorphism in the other direction. -/
+theorem isIso_symm (sel : Sel) (H P : LGraph) (m : Mapping) (hH : H.WF) (hP : P.WF) (hm : IsIso sel H P m)
+    (hsym : ∀ x ∈ m, nodeOk sel (H.attrs x.2) (P.attrs x.1) = true → nodeOk sel (P.attrs x.1) (H.attrs x.2) = true) :
+    IsIso sel P H (invMapping H m) := by
+  have hsurj := iso_surj sel H P m hm
+  have hspec := invMapping_spec H m hsurj
+  have hifst := invMapping_fst H m
+  obtain ⟨⟨⟨hfst, hnd, hnode, hedge⟩, hind⟩, hlen⟩ := hm
+  have hmfn : (m.map (·.1)).Nodup := by
+    have e : m.map (·.1) = P.ids := hfst
+    rw [e]; exact hP.1
+  have hifn : ((invMapping H m).map (·.1)).Nodup := by rw [hifst]; exact hH.1
+  -- `get?` of the inverse versus `get?` of `m`
+  have hget : ∀ h p, (invMapping H m).get? h = some p → m.get? p = some h := by
+    intro h p hg
+    exact get?_of_mem m hmfn p h (hspec _ (mem_of_get? _ _ _ hg))
+  have hget' : ∀ h ∈ H.ids, ∃ p, (invMapping H m).get? h = some p ∧ m.get? p = some h := by
+    intro h hh
+    have : h ∈ (invMapping H m).map (·.1) := by rw [hifst]; exact hh
+    obtain ⟨p, hp, -⟩ := get?_isSome_of_mem_fst _ h this
+    exact ⟨p, hp, hget h p hp⟩
+  refine ⟨⟨⟨hifst, ?_, ?_, ?_⟩, ?_⟩, hlen.symm⟩
+  · -- injective
+    refine List.Nodup.map_on ?_ (List.Nodup.of_map _ hifn)
+    intro x hx y hy e
+    have h1 := hspec x hx
+    have h2 := hspec y hy
+    rw [e] at h1
+    have := List.inj_on_of_nodup_map hmfn h1 h2 rfl
+    exact Prod.ext (Prod.mk.inj this).2 e
+  · intro x hx
+    have h1 := hspec x hx
+    have h2 := hnode _ h1
+    refine ⟨?_, hsym _ h1 h2.2⟩
+    have : x.2 ∈ m.map (·.1) := List.mem_map.2 ⟨_, h1, rfl⟩
+    have e : m.map (·.1) = P.ids := hfst
+    rw [e] at this; exact this
+  · -- every host edge comes from a pattern edge
+    intro e he
+    obtain ⟨a, b, hne⟩ := hH.2.1 e he
+    obtain ⟨pu, g1, g1'⟩ := hget' e.1 a
+    obtain ⟨pv, g2, g2'⟩ := hget' e.2.1 b
+    have hHe : H.hasEdge e.1 e.2.1 = true := by
+      unfold LGraph.hasEdge; rw [edge?_of_mem H hH e he]; rfl
+    have hPe : P.hasEdge pu pv = true := by
+      cases hh : P.hasEdge pu pv with
+      | true => rfl
+      | false => rw [hind pu pv e.1 e.2.1 g1' g2' hh] at hHe; cases hHe
+    unfold LGraph.hasEdge at hPe
+    cases hpe : P.edge? pu pv with
+    | none => rw [hpe] at hPe; cases hPe
+    | some pa =>
+      obtain ⟨pe, hpe1, hpe2, hends⟩ := edge?_some_mem P pu pv pa hpe
+      obtain ⟨hu, hv, ea, k1, k2, k3, k4⟩ := hedge pe hpe1
+      refine ⟨pu, pv, pa, g1, g2, hpe, ?_⟩
+      have hea : ea = e.2.2 := by
+        have h0 := edge?_of_mem H hH e he
+        rcases hends with ⟨e1, e2⟩ | ⟨e1, e2⟩
+        · rw [e1, g1'] at k1; rw [e2, g2'] at k2; cases k1; cases k2
+          rw [h0] at k3; exact (Option.some.inj k3).symm
+        · rw [e1, g2'] at k1; rw [e2, g1'] at k2; cases k1; cases k2
+          rw [edge?_comm, h0] at k3; exact (Option.some.inj k3).symm
+      rw [edgeOk_comm, ← hpe2, ← hea]; exact k4
+  · -- pattern edges go to host edges, so host non-edges come from pattern non-edges
+    intro h h' p p' g1 g2 hne
+    have g1' := hget h p g1
+    have g2' := hget h' p' g2
+    cases hh : P.hasEdge p p' with
+    | false => rfl
+    | true =>
+      exfalso
+      unfold LGraph.hasEdge at hh
+      cases hpe : P.edge? p p' with
+      | none => rw [hpe] at hh; cases hh
+      | some pa =>
+        obtain ⟨pe, hpe1, -, hends⟩ := edge?_some_mem P p p' pa hpe
+        obtain ⟨hu, hv, ea, k1, k2, k3, -⟩ := hedge pe hpe1
+        have : H.hasEdge h h' = true := by
+          unfold LGraph.hasEdge
+          rcases hends with ⟨e1, e2⟩ | ⟨e1, e2⟩
+          · rw [e1, g1'] at k1; rw [e2, g2'] at k2; cases k1; cases k2; rw [k3]; rfl
+          · rw [e1, g2'] at k1; rw [e2, g1'] at k2; cases k1; cases k2; rw [edge?_comm, k3]; rfl
+        rw [this] at hne; cases hne
+
+
+/-! ### relabelling -/
+
+theorem relabel_ids (G : LGraph) (f : Nat → Nat) : (G.relabel f).ids = G.ids.map f := by
+  unfold LGraph.relabel LGraph.ids; simp
+
+theorem relabel_attrs (G : LGraph) (f : Nat → Nat) (hf : Function.Injective f) (v : Nat) :
+    (G.relabel f).attrs (f v) = G.attrs v := by
+  unfold LGraph.attrs LGraph.relabel
+  simp only [List.find?_map]
+  have : ((fun p : Nat × Attrs => decide (p.1 = f v)) ∘ fun p : Nat × Attrs => (f p.1, p.2)) =
+      fun p : Nat × Attrs => decide (p.1 = v) := by
+    funext p; simp only [Function.comp]; exact decide_eq_decide.2 hf.eq_iff
+  rw [this]
+  cases G.nodes.find? (fun p => decide (p.1 = v)) <;> rfl
+
+theorem relabel_edge? (G : LGraph) (f : Nat → Nat) (hf : Function.Injective f) (u v : Nat) :
+    (G.relabel f).edge? (f u) (f v) = G.edge? u v := by
+  unfold LGraph.edge? LGraph.relabel
+  simp only [List.find?_map]
+  have : ((fun e : Nat × Nat × Attrs => decide ((e.1 = f u ∧ e.2.1 = f v) ∨ (e.1 = f v ∧ e.2.1 = f u))) ∘
+      fun e : Nat × Nat × Attrs => (f e.1, f e.2.1, e.2.2)) =
+      fun e : Nat × Nat × Attrs => decide ((e.1 = u ∧ e.2.1 = v) ∨ (e.1 = v ∧ e.2.1 = u)) := by
+    funext e; simp only [Function.comp]; exact decide_eq_decide.2 (by simp only [hf.eq_iff])
+  rw [this]
+  cases G.edges.find? _ <;> rfl
+
+theorem relabel_hasEdge (G : LGraph) (f : Nat → Nat) (hf : Function.Injective f) (u v : Nat) :
+    (G.relabel f).hasEdge (f u) (f v) = G.hasEdge u v := by
+  unfold LGraph.hasEdge; rw [relabel_edge? G f hf]
+
+theorem relabel_relabel_cancel (G : LGraph) (f g : Nat → Nat) (h : ∀ x, g (f x) = x) :
+    (G.relabel f).relabel g = G := by
+  cases G with
+  | mk nodes edges =>
+    unfold LGraph.relabel
+    simp only [List.map_map, LGraph.mk.injEq]
+    constructor
+    · conv_rhs => rw [← List.map_id nodes]
+      apply List.map_congr_left; intro p _; simp [h]
+    · conv_rhs => rw [← List.map_id edges]
+      apply List.map_congr_left; intro e _; simp [h]
+
+theorem find?_congr_mem {α : Type} (l : List α) (p q : α → Bool) (h : ∀ x ∈ l, p x = q x) : l.find? p = l.find? q := by
+  induction l with
+  | nil => rfl
+  | cons x xs ih =>
+    rw [List.find?_cons, List.find?_cons, h x List.mem_cons_self, ih (fun y hy => h y (List.mem_cons_of_mem _ hy))]
+
+/-- `f` is injective on the nodes of `G`. -/
+def InjOnIds (G : LGraph) (f : Nat → Nat) : Prop := ∀ a ∈ G.ids, ∀ b ∈ G.ids, f a = f b → a = b
+
+theorem relabel_attrs_on (G : LGraph) (f : Nat → Nat) (hf : InjOnIds G f) (v : Nat) (hv : v ∈ G.ids) :
+    (G.relabel f).attrs (f v) = G.attrs v := by
+  unfold LGraph.attrs LGraph.relabel
+  simp only [List.find?_map]
+  rw [find?_congr_mem G.nodes _ (fun p : Nat × Attrs => decide (p.1 = v))]
+  · cases G.nodes.find? (fun p => decide (p.1 = v)) <;> rfl
+  · intro p hp
+    simp only [Function.comp]
+    refine decide_eq_decide.2 ⟨fun e => hf _ (List.mem_map.2 ⟨p, hp, rfl⟩) _ hv e, fun e => by rw [e]⟩
+
+theorem relabel_edge?_on (G : LGraph) (hG : G.WF) (f : Nat → Nat) (hf : InjOnIds G f) (u v : Nat)
+    (hu : u ∈ G.ids) (hv : v ∈ G.ids) : (G.relabel f).edge? (f u) (f v) = G.edge? u v := by
+  unfold LGraph.edge? LGraph.relabel
+  simp only [List.find?_map]
+  rw [find?_congr_mem G.edges _ (fun e : Nat × Nat × Attrs => decide ((e.1 = u ∧ e.2.1 = v) ∨ (e.1 = v ∧ e.2.1 = u)))]
+  · cases G.edges.find? _ <;> rfl
+  · intro e he
+    obtain ⟨a, b, -⟩ := hG.2.1 e he
+    simp only [Function.comp]
+    refine decide_eq_decide.2 ?_
+    constructor
+    · rintro (⟨h1, h2⟩ | ⟨h1, h2⟩)
+      · exact Or.inl ⟨hf _ a _ hu h1, hf _ b _ hv h2⟩
+      · exact Or.inr ⟨hf _ a _ hv h1, hf _ b _ hu h2⟩
+    · rintro (⟨h1, h2⟩ | ⟨h1, h2⟩)
+      · exact Or.inl ⟨by rw [h1], by rw [h2]⟩
+      · exact Or.inr ⟨by rw [h1], by rw [h2]⟩
+
+theorem get?_map_snd (m : Mapping) (f : Nat → Nat) (p : Nat) :
+    Mapping.get? (m.map fun x => (x.1, f x.2)) p = (m.get? p).map f := by
+  unfold Mapping.get?
+  rw [List.find?_map]
+  have : ((fun x : Nat × Nat => decide (x.1 = p)) ∘ fun x : Nat × Nat => (x.1, f x.2)) = fun x => decide (x.1 = p) := rfl
+  rw [this]
+  cases m.find? _ <;> rfl
+
+theorem get?_map_fst (m : Mapping) (f : Nat → Nat) (hf : Function.Injective f) (p : Nat) :
+    Mapping.get? (m.map fun x => (f x.1, x.2)) (f p) = m.get? p := by
+  unfold Mapping.get?
+  rw [List.find?_map]
+  have : ((fun x : Nat × Nat => decide (x.1 = f p)) ∘ fun x : Nat × Nat => (f x.1, x.2)) = fun x => decide (x.1 = p) := by
+    funext x; simp only [Function.comp]; exact decide_eq_decide.2 hf.eq_iff
+  rw [this]
+  cases m.find? _ <;> rfl
+
+/-- Relabelling the host along an `f` that is injective on its nodes carries isomorphisms along. -/
+theorem isIso_relabel_host (sel : Sel) (H P : LGraph) (hH : H.WF) (m : Mapping) (f : Nat → Nat) (hf : InjOnIds H f)
+    (hm : IsIso sel H P m) : IsIso sel (H.relabel f) P (m.map fun x => (x.1, f x.2)) := by
+  obtain ⟨⟨⟨hfst, hnd, hnode, hedge⟩, hind⟩, hlen⟩ := hm
+  have hval : ∀ p h, m.get? p = some h → h ∈ H.ids := fun p h hg => (hnode _ (mem_of_get? m p h hg)).1
+  refine ⟨⟨⟨?_, ?_, ?_, ?_⟩, ?_⟩, ?_⟩
+  · rw [List.map_map]; exact hfst
+  · rw [List.map_map]
+    have : ((fun x : Nat × Nat => x.2) ∘ fun x : Nat × Nat => (x.1, f x.2)) = f ∘ (fun x => x.2) := rfl
+    rw [this, ← List.map_map]
+    refine List.Nodup.map_on ?_ hnd
+    intro a ha b hb e
+    obtain ⟨x, hx, rfl⟩ := List.mem_map.1 ha
+    obtain ⟨y, hy, rfl⟩ := List.mem_map.1 hb
+    exact hf _ (hnode x hx).1 _ (hnode y hy).1 e
+  · intro ph hph
+    obtain ⟨x, hx, rfl⟩ := List.mem_map.1 hph
+    simp only
+    rw [relabel_ids, relabel_attrs_on H f hf _ (hnode x hx).1]
+    exact ⟨List.mem_map.2 ⟨x.2, (hnode x hx).1, rfl⟩, (hnode x hx).2⟩
+  · intro e he
+    obtain ⟨hu, hv, ea, g1, g2, g3, g4⟩ := hedge e he
+    refine ⟨f hu, f hv, ea, ?_, ?_, ?_, g4⟩
+    · rw [get?_map_snd, g1]; rfl
+    · rw [get?_map_snd, g2]; rfl
+    · rw [relabel_edge?_on H hH f hf _ _ (hval _ _ g1) (hval _ _ g2)]; exact g3
+  · intro p q hp hq g1 g2 hne
+    rw [get?_map_snd] at g1 g2
+    cases h1 : m.get? p with
+    | none => rw [h1] at g1; cases g1
+    | some a =>
+      cases h2 : m.get? q with
+      | none => rw [h2] at g2; cases g2
+      | some b =>
+        rw [h1] at g1; rw [h2] at g2
+        cases g1; cases g2
+        unfold LGraph.hasEdge
+        rw [relabel_edge?_on H hH f hf _ _ (hval _ _ h1) (hval _ _ h2)]
+        exact hind p q a b h1 h2 hne
+  · simp only [LGraph.relabel, List.length_map]; exact hlen
+
+theorem get?_map_fst_on (m : Mapping) (f : Nat → Nat) (p : Nat)
+    (hf : ∀ x ∈ m, f x.1 = f p → x.1 = p) :
+    Mapping.get? (m.map fun x => (f x.1, x.2)) (f p) = m.get? p := by
+  unfold Mapping.get?
+  rw [List.find?_map, find?_congr_mem m _ (fun x => decide (x.1 = p))]
+  · cases m.find? _ <;> rfl
+  · intro x hx
+    simp only [Function.comp]
+    exact decide_eq_decide.2 ⟨hf x hx, fun e => by rw [e]⟩
+
+/-- Relabelling the pattern along an `f` that is injective on its nodes carries isomorphisms along. -/
+theorem isIso_relabel_pattern_on (sel : Sel) (H P : LGraph) (hP : P.WF) (m : Mapping) (f : Nat → Nat)
+    (hf : InjOnIds P f) (hm : IsIso sel H P m) :
+    IsIso sel H (P.relabel f) (m.map fun x => (f x.1, x.2)) := by
+  obtain ⟨⟨⟨hfst, hnd, hnode, hedge⟩, hind⟩, hlen⟩ := hm
+  have hfst' : m.map (·.1) = P.ids := hfst
+  have hmfn : (m.map (·.1)).Nodup := by rw [hfst']; exact hP.1
+  have hkey : ∀ x ∈ m, x.1 ∈ P.ids := fun x hx => hfst' ▸ List.mem_map.2 ⟨x, hx, rfl⟩
+  refine ⟨⟨⟨?_, ?_, ?_, ?_⟩, ?_⟩, ?_⟩
+  · rw [relabel_ids, List.map_map]
+    have : ((fun x : Nat × Nat => x.1) ∘ fun x : Nat × Nat => (f x.1, x.2)) = f ∘ (fun x => x.1) := rfl
+    rw [this, ← List.map_map]
+    congr 1
+  · rw [List.map_map]; exact hnd
+  · intro ph hph
+    obtain ⟨x, hx, rfl⟩ := List.mem_map.1 hph
+    simp only
+    rw [relabel_attrs_on P f hf _ (hkey x hx)]
+    exact hnode x hx
+  · intro e' he'
+    unfold LGraph.relabel at he'
+    obtain ⟨e, he, rfl⟩ := List.mem_map.1 he'
+    obtain ⟨a, b, -⟩ := hP.2.1 e he
+    obtain ⟨hu, hv, ea, g1, g2, g3, g4⟩ := hedge e he
+    refine ⟨hu, hv, ea, ?_, ?_, g3, g4⟩
+    · rw [get?_map_fst_on m f e.1 (fun x hx ee => hf _ (hkey x hx) _ a ee)]; exact g1
+    · rw [get?_map_fst_on m f e.2.1 (fun x hx ee => hf _ (hkey x hx) _ b ee)]; exact g2
+  · intro p' q' hp hq g1 g2 hne
+    obtain ⟨x, hx, hxe⟩ := List.mem_map.1 (mem_of_get? _ _ _ g1)
+    obtain ⟨y, hy, hye⟩ := List.mem_map.1 (mem_of_get? _ _ _ g2)
+    obtain ⟨rfl, rfl⟩ := Prod.mk.inj hxe
+    obtain ⟨rfl, rfl⟩ := Prod.mk.inj hye
+    unfold LGraph.hasEdge at hne
+    rw [relabel_edge?_on P hP f hf _ _ (hkey x hx) (hkey y hy)] at hne
+    exact hind x.1 y.1 x.2 y.2 (get?_of_mem m hmfn _ _ hx) (get?_of_mem m hmfn _ _ hy) hne
+  · simp only [LGraph.relabel, List.length_map]; exact hlen
+
+theorem relabel_WF (G : LGraph) (hG : G.WF) (f : Nat → Nat) (hf : Function.Injective f) : (G.relabel f).WF := by
+  obtain ⟨h1, h2, h3⟩ := hG
+  refine ⟨?_, ?_, ?_⟩
+  · rw [relabel_ids]; exact h1.map hf
+  · intro e' he'
+    unfold LGraph.relabel at he'
+    obtain ⟨e, he, rfl⟩ := List.mem_map.1 he'
+    obtain ⟨a, b, c⟩ := h2 e he
+    rw [relabel_ids]
+    exact ⟨List.mem_map.2 ⟨_, a, rfl⟩, List.mem_map.2 ⟨_, b, rfl⟩, fun hh => c (hf hh)⟩
+  · unfold LGraph.relabel
+    simp only [List.map_map]
+    have hE : G.edges.Nodup := List.Nodup.of_map _ h3
+    refine List.Nodup.map_on ?_ hE
+    intro x hx y hy e
+    simp only [Function.comp] at e
+    refine List.inj_on_of_nodup_map h3 hx hy ?_
+    obtain ⟨e1, e2⟩ := Prod.mk.inj e
+    -- {f a, f b} = {f c, f d} as (min, max) pairs ⇒ {a, b} = {c, d}
+    have key : (x.1 = y.1 ∧ x.2.1 = y.2.1) ∨ (x.1 = y.2.1 ∧ x.2.1 = y.1) := by
+      rcases Nat.le_total (f x.1) (f x.2.1) with h | h <;> rcases Nat.le_total (f y.1) (f y.2.1) with h' | h'
+      · rw [Nat.min_eq_left h, Nat.min_eq_left h'] at e1; rw [Nat.max_eq_right h, Nat.max_eq_right h'] at e2
+        exact Or.inl ⟨hf e1, hf e2⟩
+      · rw [Nat.min_eq_left h, Nat.min_eq_right h'] at e1; rw [Nat.max_eq_right h, Nat.max_eq_left h'] at e2
+        exact Or.inr ⟨hf e1, hf e2⟩
+      · rw [Nat.min_eq_right h, Nat.min_eq_left h'] at e1; rw [Nat.max_eq_left h, Nat.max_eq_right h'] at e2
+        exact Or.inr ⟨hf e2, hf e1⟩
+      · rw [Nat.min_eq_right h, Nat.min_eq_right h'] at e1; rw [Nat.max_eq_left h, Nat.max_eq_left h'] at e2
+        exact Or.inl ⟨hf e2, hf e1⟩
+    rcases key with ⟨k1, k2⟩ | ⟨k1, k2⟩
+    · simp only [k1, k2]
+    · simp only [k1, k2, Nat.min_comm, Nat.max_comm]
+
+/-- **Relabelling invariance of the verdict (host side).** -/
+theorem isoDecide_relabel_host (sel : Sel) (H P : LGraph) (hH : H.WF) (hP : P.WF) (f : Nat → Nat)
+    (hf : Function.Injective f) : isoDecide sel (H.relabel f) P = isoDecide sel H P := by
+  rw [Bool.eq_iff_iff, isoDecide_iff sel _ P hP, isoDecide_iff sel H P hP]
+  constructor
+  · rintro ⟨m, hm⟩
+    obtain ⟨g, hg⟩ := hf.hasLeftInverse
+    have hgi : InjOnIds (H.relabel f) g := by
+      intro a ha b hb e
+      rw [relabel_ids] at ha hb
+      obtain ⟨a', -, rfl⟩ := List.mem_map.1 ha
+      obtain ⟨b', -, rfl⟩ := List.mem_map.1 hb
+      rw [hg, hg] at e; rw [e]
+    have := isIso_relabel_host sel (H.relabel f) P (relabel_WF H hH f hf) m g hgi hm
+    rw [relabel_relabel_cancel H f g hg] at this
+    exact ⟨_, this⟩
+  · rintro ⟨m, hm⟩
+    exact ⟨_, isIso_relabel_host sel H P hH m f (fun a _ b _ e => hf e) hm⟩
+
+/-- **Relabelling invariance of the verdict (pattern side).** -/
+theorem isoDecide_relabel_pattern (sel : Sel) (H P : LGraph) (hP : P.WF) (f : Nat → Nat)
+    (hf : Function.Injective f) : isoDecide sel H (P.relabel f) = isoDecide sel H P := by
+  have hP' := relabel_WF P hP f hf
+  rw [Bool.eq_iff_iff, isoDecide_iff sel H _ hP', isoDecide_iff sel H P hP]
+  constructor
+  · rintro ⟨m, hm⟩
+    obtain ⟨g, hg⟩ := hf.hasLeftInverse
+    -- `g` is injective on the relabelled pattern's nodes; move the pattern back
+    have hgi : ∀ a ∈ (P.relabel f).ids, ∀ b ∈ (P.relabel f).ids, g a = g b → a = b := by
+      intro a ha b hb e
+      rw [relabel_ids] at ha hb
+      obtain ⟨a', -, rfl⟩ := List.mem_map.1 ha
+      obtain ⟨b', -, rfl⟩ := List.mem_map.1 hb
+      rw [hg, hg] at e; rw [e]
+    have := isIso_relabel_pattern_on sel H (P.relabel f) hP' m g hgi hm
+    rw [relabel_relabel_cancel P f g hg] at this
+    exact ⟨_, this⟩
+  · rintro ⟨m, hm⟩
+    exact ⟨_, isIso_relabel_pattern_on sel H P hP m f (fun a _ b _ e => hf e) hm⟩
+
+
+theorem attrs_of_mem (G : LGraph) (hn : G.ids.Nodup) (n : Nat × Attrs) (h : n ∈ G.nodes) : G.attrs n.1 = n.2 := by
+  unfold LGraph.attrs
+  unfold LGraph.ids at hn
+  generalize G.nodes = l at h hn
+  induction l with
+  | nil => cases h
+  | cons x xs ih =>
+    simp only [List.map_cons, List.nodup_cons] at hn
+    rw [List.find?_cons]
+    rcases List.mem_cons.1 h with rfl | hm
+    · simp
+    · have : x.1 ≠ n.1 := fun e => hn.1 (List.mem_map.2 ⟨n, hm, e.symm⟩)
+      simp only [this, decide_false]
+      exact ih hm hn.2
+
+theorem node_of_id (G : LGraph) (v : Nat) (h : v ∈ G.ids) : ∃ n ∈ G.nodes, n.1 = v := by
+  obtain ⟨n, hn, rfl⟩ := List.mem_map.1 h; exact ⟨n, hn, rfl⟩
+
+/-- **Isomorphism is reflexive** (identity assignment). -/
+theorem isIso_refl (sel : Sel) (G : LGraph) (hG : G.WF) : IsIso sel G G (G.ids.map fun v => (v, v)) := by
+  have hf : (G.ids.map fun v => (v, v)).map (·.1) = G.ids := by rw [List.map_map]; exact List.map_id' _
+  have hs : (G.ids.map fun v => (v, v)).map (·.2) = G.ids := by rw [List.map_map]; exact List.map_id' _
+  have hfn : ((G.ids.map fun v => (v, v)).map (·.1)).Nodup := by rw [hf]; exact hG.1
+  have hget : ∀ v ∈ G.ids, Mapping.get? (G.ids.map fun v => (v, v)) v = some v :=
+    fun v hv => get?_of_mem _ hfn v v (List.mem_map.2 ⟨v, hv, rfl⟩)
+  refine ⟨⟨⟨hf, by rw [hs]; exact hG.1, ?_, ?_⟩, ?_⟩, rfl⟩
+  · intro ph hph
+    obtain ⟨v, hv, rfl⟩ := List.mem_map.1 hph
+    refine ⟨hv, ?_⟩
+    unfold nodeOk
+    simp
+  · intro e he
+    obtain ⟨a, b, -⟩ := hG.2.1 e he
+    refine ⟨e.1, e.2.1, e.2.2, hget _ a, hget _ b, edge?_of_mem G hG e he, ?_⟩
+    unfold edgeOk; simp
+  · intro p q hp hq g1 g2 hne
+    obtain ⟨v, -, hv⟩ := List.mem_map.1 (mem_of_get? _ _ _ g1)
+    obtain ⟨w, -, hw⟩ := List.mem_map.1 (mem_of_get? _ _ _ g2)
+    obtain ⟨rfl, rfl⟩ := Prod.mk.inj hv
+    obtain ⟨rfl, rfl⟩ := Prod.mk.inj hw
+    exact hne
+
+theorem isoDecide_refl (sel : Sel) (G : LGraph) (hG : G.WF) : isoDecide sel G G = true :=
+  (isoDecide_iff sel G G hG).2 ⟨_, isIso_refl sel G hG⟩
+
+/-- The node closure is symmetric when the hydrogen rule is off. -/
+theorem nodeOk_symm_of_noH (sel : Sel) (h : sel.hcountRule = false) (a b : Attrs) (hab : nodeOk sel a b = true) :
+    nodeOk sel b a = true := by
+  unfold nodeOk at hab ⊢
+  simp only [h, Bool.not_false, Bool.true_or, Bool.and_true, List.all_eq_true, decide_eq_true_eq] at hab ⊢
+  exact fun k hk => (hab k hk).symm
+
+/-- The node closure is symmetric between nodes with equal hydrogen counts. -/
+theorem nodeOk_symm_of_eqH (sel : Sel) (a b : Attrs) (he : hcountOf a = hcountOf b) (hab : nodeOk sel a b = true) :
+    nodeOk sel b a = true := by
+  unfold nodeOk at hab ⊢
+  simp only [Bool.and_eq_true, List.all_eq_true, decide_eq_true_eq, Bool.or_eq_true, Bool.not_eq_true'] at hab ⊢
+  refine ⟨fun k hk => (hab.1 k hk).symm, ?_⟩
+  rcases hab.2 with h | h
+  · exact Or.inl h
+  · exact Or.inr (by omega)
+
+/-- Hydrogen counts cannot break symmetry: the rule is off, or all annotated counts of the two graphs
+agree (in particular when none is annotated: absent reads as 0). -/
+def NoHcountGap (sel : Sel) (G₁ G₂ : LGraph) : Prop :=
+  sel.hcountRule = false ∨ ∀ a ∈ G₁.nodes, ∀ b ∈ G₂.nodes, hcountOf a.2 = hcountOf b.2
+
+theorem isoDecide_symm_aux (sel : Sel) (A B : LGraph) (hA : A.WF) (hB : B.WF) (hc : NoHcountGap sel A B)
+    (hab : isoDecide sel A B = true) : isoDecide sel B A = true := by
+  obtain ⟨m, hm⟩ := (isoDecide_iff sel A B hB).1 hab
+  refine (isoDecide_iff sel B A hA).2 ⟨_, isIso_symm sel A B m hA hB hm ?_⟩
+  intro x hx hok
+  rcases hc with hc | hc
+  · exact nodeOk_symm_of_noH sel hc _ _ hok
+  · have hxa := (hm.1.1.2.2.1 x hx).1
+    have hxb : x.1 ∈ B.ids := by
+      have e : m.map (·.1) = B.ids := hm.1.1.1
+      rw [← e]; exact List.mem_map.2 ⟨x, hx, rfl⟩
+    obtain ⟨na, hna, ea⟩ := node_of_id A x.2 hxa
+    obtain ⟨nb, hnb, eb⟩ := node_of_id B x.1 hxb
+    have ha : A.attrs x.2 = na.2 := by rw [← ea]; exact attrs_of_mem A hA.1 na hna
+    have hb : B.attrs x.1 = nb.2 := by rw [← eb]; exact attrs_of_mem B hB.1 nb hnb
+    exact nodeOk_symm_of_eqH sel _ _ (by rw [ha, hb]; exact hc na hna nb hnb) hok
+
+/-- **Symmetry of the verdict** for graphs with equal or absent hydrogen counts (or rule off). -/
+theorem isoDecide_symm (sel : Sel) (G₁ G₂ : LGraph) (h1 : G₁.WF) (h2 : G₂.WF) (hh : NoHcountGap sel G₁ G₂) :
+    isoDecide sel G₁ G₂ = isoDecide sel G₂ G₁ := by
+  rw [Bool.eq_iff_iff]
+  refine ⟨isoDecide_symm_aux sel G₁ G₂ h1 h2 hh, isoDecide_symm_aux sel G₂ G₁ h2 h1 ?_⟩
+  rcases hh with h | h
+  · exact Or.inl h
+  · exact Or.inr (fun a ha b hb => (h b hb a ha).symm)
 
 end SynKit.Match
